@@ -198,7 +198,7 @@ def cmd_discover(args):
             print(f"   Suggested merchant: {merchant}")
             print()
             print(f"   {C.DIM}[{merchant}]")
-            print(f"   match: contains(\"{pattern}\")")
+            print(f"   match: {suggest_match_expr(pattern)}")
             print(f"   category: CATEGORY")
             print(f"   subcategory: SUBCATEGORY")
             if stats['has_negative']:
@@ -270,12 +270,29 @@ def suggest_merchant_name(description):
     return 'Unknown'
 
 
+def suggest_match_expr(pattern):
+    """Turn a suggested pattern into a .rules match expression.
+
+    suggest_pattern() returns a regular expression: regex-escaped words joined by
+    \\s*. contains() does plain substring matching, so the words are un-escaped and
+    each becomes its own contains() condition.
+    """
+    import re
+
+    words = [re.sub(r'\\(.)', r'\1', w) for w in pattern.split(r'\s*') if w]
+
+    def literal(text):
+        return '"' + text.replace('\\', '\\\\').replace('"', '\\"') + '"'
+
+    if not words:
+        return 'contains("")'
+    return ' and '.join(f'contains({literal(w)})' for w in words)
+
+
 def suggest_merchants_rule(merchant_name, pattern, tags=None):
     """Generate a suggested rule block in .rules format."""
-    # Escape quotes in pattern if needed
-    escaped_pattern = pattern.replace('"', '\\"')
     rule = f"""[{merchant_name}]
-match: contains("{escaped_pattern}")
+match: {suggest_match_expr(pattern)}
 category: CATEGORY
 subcategory: SUBCATEGORY"""
     if tags:
